@@ -76,6 +76,8 @@ class Network:
         self.interceptor = None  # callable(entry) -> None | ('status', code) | ('raise', exc) | ('drop',) | ('hold',)
         self.on_delivered = None  # callable(entry) after a request was handled
         self.held = []  # entries withheld by the interceptor ('hold'): (entry, headers)
+        self.pre_handle = None
+        self.post_handle = None
         self._lock = threading.RLock()
         self._port = 40000
         self.validator = None  # optional callable(bytes, what) -> list[str]; set by checks that validate the wire
@@ -129,7 +131,11 @@ class Network:
         except InvalidPathError as ex:
             entry.status = ex.status
             return ex.status, ex.reason, b''
+        if self.pre_handle is not None:
+            self.pre_handle(entry)  # e.g. provider commits while a request is in flight, before it is answered
         status, reason, response = component.do_post(Headers(headers), entry.path, ('127.0.0.1', 50000), entry.request)
+        if self.post_handle is not None:
+            self.post_handle(entry)  # ... or after the answer was computed, before the requester sees it
         if isinstance(response, str):
             response = response.encode('utf-8')
         entry.status = status
